@@ -19,7 +19,9 @@
 #define CELMA_LOG_DETAIL_LOG_ATTRIBUTES_CONTAINER_HPP
 
 
+#include <cstdint>
 #include <string>
+#include <tuple>
 #include <vector>
 #include <boost/lexical_cast.hpp>
 
@@ -46,6 +48,10 @@ public:
    /// @since  0.3, 16.03.2018
    LogAttributesContainer() = default;
 
+   /// Type of the unique id that is assigned to each attribute when it is
+   /// added. Allows to remove exactly this attribute again.
+   using attr_id_t = std::uint64_t;
+
    LogAttributesContainer( const LogAttributesContainer&) = delete;
    LogAttributesContainer& operator =( const LogAttributesContainer&) = delete;
 
@@ -60,8 +66,12 @@ public:
    ///    The name of the attribute.
    /// @param[in]  attr_value
    ///    The value of the attribute.
+   /// @return
+   ///    The unique id of the new attribute within this container, can be
+   ///    passed to removeAttributeById().
    /// @since  1.15.0, 19.06.2016
-   void addAttribute( const std::string& attr_name, const std::string& attr_value);
+   attr_id_t addAttribute( const std::string& attr_name,
+      const std::string& attr_value);
 
    /// Adds an attribute with "any" type to the internal list of attributes.<br>
    /// The type of the attribute value must be convertible to string.
@@ -72,9 +82,11 @@ public:
    ///    The name of the attribute.
    /// @param[in]  attr_value
    ///    The value of the attribute.
+   /// @return
+   ///    The unique id of the new attribute within this container.
    /// @since  1.15.0, 19.06.2016
    template< typename T>
-      void addAttribute( const std::string& attr_name, T value);
+      attr_id_t addAttribute( const std::string& attr_name, T value);
 
    /// Returns the value for the given attribute.<br>
    /// If no attribute with the given name is found, an empty string is
@@ -99,14 +111,24 @@ public:
    /// @since  1.15.0, 20.03.2018
    void removeAttribute( const std::string& attr_name);
 
+   /// Removes exactly the attribute that got the given id when it was added,
+   /// no matter if other attributes with the same name were added later.<br>
+   /// Does nothing if this attribute does not exist anymore.
+   ///
+   /// @param[in]  attr_id
+   ///    The id of the attribute as returned by addAttribute().
+   void removeAttributeById( attr_id_t attr_id);
+
 private:
-   /// Value type stored in the internal container.
-   using attr_pair_t = std::pair< std::string, std::string>;
+   /// Value type stored in the internal container: name, value and id.
+   using attr_pair_t = std::tuple< std::string, std::string, attr_id_t>;
    /// Type of the internal container where the attributes are stored.
    using attr_cont_t = std::vector< attr_pair_t>;
 
    /// The container in which the attributes and their values are stored.
    attr_cont_t  mAttributes;
+   /// The id that was assigned to the attribute that was added last.
+   attr_id_t    mLastId = 0;
 
 }; // LogAttributesContainer
 
@@ -116,9 +138,10 @@ private:
 
 
 template< typename T>
-   void LogAttributesContainer::addAttribute( const std::string& attr_name, T value)
+   LogAttributesContainer::attr_id_t
+      LogAttributesContainer::addAttribute( const std::string& attr_name, T value)
 {
-   addAttribute( attr_name, boost::lexical_cast< std::string>( value));
+   return addAttribute( attr_name, boost::lexical_cast< std::string>( value));
 } // LogAttributesContainer::addAttribute
 
 
